@@ -535,6 +535,12 @@ func pubsubChild(args []string) int {
 				case "pubslicesync":
 					o.PubSliceSync(evs)
 				}
+				// a batching producer reuses its buffer once the call has returned: PubSlice* must not keep the caller's slice
+				if strings.HasPrefix(variant, "pubslice") {
+					for i := range evs {
+						evs[i] = -777000 - i
+					}
+				}
 				p.log("pubret %d", id)
 			})
 		case "unsub":
